@@ -540,3 +540,8 @@ def r12_6(ctx, rep):
                 "different trees (R1.1) with the same name; the second term is silently dropped from the design")
     else:
         rep.info("R12.6", s.where, s.qual, "printer emits parentheses or grouping is kept", "injectivity is not claimed, detector silent")
+
+
+from ..core import guard_rules  # noqa: E402
+
+guard_rules(globals())
